@@ -71,3 +71,6 @@ M("c15-provider-second-portal", "C15", FT, "BlockingPortalProvider.__enter__", "
 M("c15-thread-token-overrides-explicit-token", "C15", FT, "_token_or_error",
   "    if token is not None:\n        return token\n\n    try:\n        return threadlocals.current_token\n    except AttributeError:",
   "    token = getattr(threadlocals, \"current_token\", token)\n    if token is not None:\n        return token\n\n    try:\n        return threadlocals.current_token\n    except AttributeError:", ["R15-f"])
+N("c15-n-token-or-error-single-exit", "C15", FT, "_token_or_error",
+  "    if token is not None:\n        return token\n\n    try:\n        return threadlocals.current_token\n    except AttributeError:",
+  "    if token is None:\n        try:\n            token = threadlocals.current_token\n        except AttributeError:\n            token = None\n\n    if token is not None:\n        return token\n\n    try:\n        raise AttributeError\n    except AttributeError:")
